@@ -165,7 +165,7 @@ func (c *conn) handleSubscribe(in *inEnvelope) error {
 	c.subscriptionLogger.Subscribe(c.ctx, id, tags)
 	var self *reactive.Rerunner
 	self = reactive.NewRerunner(c.ctx, func(ctx context.Context) (interface{}, error) {
-		ctx = c.makeCtx(ctx)
+		ctx, ctxErr := safeMakeCtx(c.makeCtx, ctx)
 		ctx = batch.WithBatching(ctx)
 
 		start := time.Now()
@@ -191,7 +191,10 @@ func (c *conn) handleSubscribe(in *inEnvelope) error {
 			Extensions:           in.Extensions,
 		}
 
-		output := RunMiddlewares(middlewares, computationInput)
+		output := &ComputationOutput{Metadata: make(map[string]interface{}), Error: ctxErr}
+		if ctxErr == nil {
+			output = RunMiddlewares(middlewares, computationInput)
+		}
 		current, err := output.Current, output.Error
 
 		c.logger.FinishExecution(ctx, tags, time.Since(start))
@@ -304,7 +307,7 @@ func (c *conn) handleMutate(in *inEnvelope) error {
 		c.mutateMu.Lock()
 		defer c.mutateMu.Unlock()
 
-		ctx = c.makeCtx(ctx)
+		ctx, ctxErr := safeMakeCtx(c.makeCtx, ctx)
 		ctx = batch.WithBatching(ctx)
 
 		start := time.Now()
@@ -329,7 +332,10 @@ func (c *conn) handleMutate(in *inEnvelope) error {
 			Extensions:           in.Extensions,
 		}
 
-		output := RunMiddlewares(middlewares, computationInput)
+		output := &ComputationOutput{Metadata: make(map[string]interface{}), Error: ctxErr}
+		if ctxErr == nil {
+			output = RunMiddlewares(middlewares, computationInput)
+		}
 		current, err := output.Current, output.Error
 
 		c.logger.FinishExecution(ctx, tags, time.Since(start))
